@@ -1048,10 +1048,17 @@ class _ShardAbort(Exception):
     pass
 
 
+_MIN_TIMEOUTS = [0]
+
+
 def _still(case, idx, sig):
     if sig[1] == 'accepted:illegal-character':
         return False      # not minimised (the flag belongs to the token edit, not to the text)
+    if _MIN_TIMEOUTS[0] >= 2:
+        return False      # candidates run into the watchdog: stop shrinking
     r, _ = execute(case)
+    if any(x[1] == 'timeout' for x in r):
+        _MIN_TIMEOUTS[0] += 1
     return len(r) > idx and (r[idx][5], r[idx][1], r[idx][2]) == sig
 
 
@@ -1099,6 +1106,7 @@ def finish(total, tier):
     import time
     warnings.simplefilter('ignore')
     t0 = time.perf_counter()
+    _MIN_TIMEOUTS[0] = 0
     for k in sorted(total.violations):
         v = total.violations[k]
         case = unjson(v['case'])
@@ -1113,6 +1121,8 @@ def finish(total, tier):
                 case = trial
         small = minimize_case(case, idx, sig)
         r, _ = execute(small)
+        if not (len(r) > idx and (r[idx][5], r[idx][1], r[idx][2]) == sig):
+            continue
         small = jsonable(dict(small, sigidx=idx))
         v.update(case=small, size=len(json.dumps(small, ensure_ascii=True)),
                  expected=jsonable(r[idx][3]), observed=jsonable(r[idx][4]))
